@@ -102,6 +102,42 @@ ChiOK(h, nm, B) ==
       dev == Dev(-half)
   IN dev <= T * nm
 
+\* ---- compressed key wrappers (switching, automorphism, tensor, GGLWE-to-GGSW keys): each is a compressed GGLWE of known
+\* plaintext columns under a known key.  (a) stored seeds = the draws of the master stream in the library's cell order
+\* (tgk: one branch seed per key, then the cells of that key); (b) the decompressed cells equal, limb for limb, the plain
+\* compressed-GGLWE encryption of those columns (itself validated cell by cell against the standard encryption) -- for the
+\* automorphism key only the masks, its key pi_p^-1(s) not being constructible through the public API; (c) every cell is a
+\* valid gadget encryption of its column under its key (phase within the configured bound), computed here from raw limbs.
+GalInvR(p, N) == CHOOSE q \in 1..(2 * N - 1) : (p * q) % (2 * N) = 1
+WrapCols(e) == CASE e.layout = "tsk_c" -> (e.rank * (e.rank + 1)) \div 2 [] OTHER -> e.rank
+WrapKeys(e) == IF e.layout = "tgk_c" THEN e.rank ELSE 1
+\* plaintext column of cell (key i, column c), 1-based, and the secret the cell is encrypted under
+TriIdx(e, c) == CHOOSE ij \in (1..e.rank) \X (1..e.rank) : ij[1] <= ij[2] /\ (ij[1] - 1) * e.rank + (ij[2] - 1) - ((ij[1] - 1) * ij[1]) \div 2 = c - 1
+WrapPt(e, rec, i, c) ==
+  LET sk == rec.aux.sk IN
+  CASE e.layout = "ksk_c" -> rec.aux.sk_in[c]
+    [] e.layout = "atk_c" -> sk[c]
+    [] e.layout = "tsk_c" -> LET ij == TriIdx(e, c) IN NegacyclicMul(sk[ij[1]], sk[ij[2]])
+    [] OTHER -> NegacyclicMul(sk[i], sk[c])
+WrapSk(e, rec) == IF e.layout = "atk_c" THEN [x \in 1..e.rank |-> Auto(rec.aux.sk[x], GalInvR(rec.aux.p, e.n))] ELSE rec.aux.sk
+WrapOK(e, rec) ==
+  LET nc == WrapCols(e)
+      nk == WrapKeys(e)
+      blk == e.dnum * nc
+      Bk == (e.bound10 + 9) \div 10
+      sk == WrapSk(e, rec)
+  IN /\ Len(rec.stored) = nk * blk /\ Len(rec.drawn) = nk * blk /\ Len(rec.cells) = nk * blk /\ Len(rec.ref) = nk * blk
+     /\ \A i \in 0..(nk - 1) : \A r \in 0..(e.dnum - 1) : \A c \in 0..(nc - 1) :
+          LET idx == i * blk + r * nc + c + 1
+              ct == rec.cells[idx]
+              K == ct.size * ct.b
+              sh == K - (r + 1) * e.dsize * e.b
+              pt == WrapPt(e, rec, i + 1, c + 1)
+              ph == PhaseVec(ct, sk)
+          IN /\ rec.stored[idx] = rec.drawn[i * blk + c * e.dnum + r + 1]
+             /\ (IF e.layout = "atk_c" THEN \A col \in 2..(e.rank + 1) : ct.d[col] = rec.ref[idx].d[col] ELSE ct = rec.ref[idx])
+             /\ sh >= 0
+             /\ \A x \in 1..e.n : CycDist(ph[x], (pt[x] % Pow2(K - sh)) * Pow2(sh), Pow2(K)) <= Bk
 \* ---- C19
 SeedIdx(e, r, c) ==      \* 0-based draw index of the seed stored at cell (r, c) (0-based), per compressed type
   CASE e.layout = "gglwe_c" -> c * e.dnum + r
@@ -114,6 +150,7 @@ C19OK(e, rec) ==
                                  /\ Len(rec.stored) = e.dnum * rin
                                  /\ \A r \in 0..(e.dnum - 1) : \A c \in 0..(rin - 1) : rec.stored[r * rin + c + 1] = rec.drawn[SeedIdx(e, r, c) + 1]
                                  /\ rec.cells = rec.ref
+       [] e.layout \in {"ksk_c", "atk_c", "tsk_c", "tgk_c"} -> WrapOK(e, rec)
        [] OTHER -> LET cols == e.rank + 1 IN
                    /\ Len(rec.stored) = e.dnum * cols
                    /\ \A r \in 0..(e.dnum - 1) : \A c \in 0..(cols - 1) : rec.stored[r * cols + c + 1] = rec.drawn[SeedIdx(e, r, c) + 1]
